@@ -11,6 +11,7 @@ import (
 	"bytes"
 	"encoding/json"
 	"fmt"
+	"io"
 	"regexp"
 	"strings"
 	"sync"
@@ -270,7 +271,7 @@ type c07Dec struct {
 	SyncUp int    `json:"sync_up"` // what the column maximum adds to this decorator's own width
 }
 
-var c07Ctors = []string{"name", "any", "counters", "countersKiB", "countersKB", "total", "current", "inverted", "percentage", "newpercentage", "elapsed", "ewmaeta", "avgeta", "ewmaspeed", "avgspeed", "spinner"}
+var c07Ctors = []string{"name", "any", "counters", "countersKiB", "countersKB", "total", "current", "inverted", "percentage", "newpercentage", "elapsed", "ewmaeta", "avgeta", "ewmaspeed", "avgspeed", "spinner", "spinner0"}
 var c07Texts = []string{"", "a", "name", "\u4e16\u754c", "a\u0301b", "x y", "\u65e5\u672c\u8a9e\u30c6\u30ad\u30b9\u30c8", "0123456789012345678901234567890123456789"}
 
 func mkDecor(d c07Dec) decor.Decorator {
@@ -315,6 +316,8 @@ func mkDecor(d c07Dec) decor.Decorator {
 		x = decor.NewAverageSpeed(decor.SizeB1000(0), "% .1f", start, wc)
 	case "spinner":
 		x = decor.Spinner([]string{"|", "\u306e", "ab"}, wc)
+	case "spinner0":
+		x = decor.Spinner(nil, wc) // the default frames
 	default:
 		x = decor.Name(d.Text, wc)
 	}
@@ -552,7 +555,13 @@ func checkC07Row(row c07Row, g *caseGuard) (msg, key string) {
 		if row.Trim {
 			opts = append(opts, mpb.BarFillerTrim())
 		}
-		bar := pr.MustAdd(row.Total, row.Filler.build(), opts...)
+		filler := row.Filler.build()
+		if (row.Total+row.Current)%2 == 0 {
+			// the same filler handed over as a BarFillerFunc, as user code often does
+			inner := filler
+			filler = mpb.BarFillerFunc(func(w io.Writer, st decor.Statistics) error { return inner.Fill(w, st) })
+		}
+		bar := pr.MustAdd(row.Total, filler, opts...)
 		bar.SetCurrent(row.Current)
 		n0 := hk.counts[hpRenderEnd].Load()
 		ch <- time.Now()
